@@ -124,6 +124,9 @@ type Field struct {
 type Branch struct {
 	Disc int
 	Rec  *Record
+	// Deprecated renders `[deprecated("old")]` in front of the branch; a deprecated branch is encoded and decoded
+	// like any other.
+	Deprecated bool
 }
 
 // Record is a struct, message or union.
@@ -167,7 +170,7 @@ func (r *Record) clone() *Record {
 	}
 	r2.Branches = nil
 	for _, b := range r.Branches {
-		r2.Branches = append(r2.Branches, Branch{Disc: b.Disc, Rec: b.Rec.clone()})
+		r2.Branches = append(r2.Branches, Branch{Disc: b.Disc, Rec: b.Rec.clone(), Deprecated: b.Deprecated})
 	}
 	return &r2
 }
@@ -310,6 +313,9 @@ func renderRecord(b *strings.Builder, r *Record, indent string) {
 			kw := "struct"
 			if br.Rec.Kind == Message {
 				kw = "message"
+			}
+			if br.Deprecated {
+				b.WriteString("    [deprecated(\"old\")]\n")
 			}
 			fmt.Fprintf(b, "    %d -> %s %s {\n", br.Disc, kw, br.Rec.Name)
 			renderRecord(b, br.Rec, "    ")
